@@ -100,6 +100,41 @@ def shape_guard_table(M, rep, R4, oc=None):
                           shp, dshp, created), site=f.file + ":%d" % f.node.lineno)
 
 
+def passthrough_rule(M, rep, R4, ctx=None):
+    """a[index] reads exactly `index`; a[index] = v writes v at `index`; write_direct writes the whole array -- the index a caller
+    gives is what the storage access sees (negative integers, out-of-range values are h5py's to refuse). Shared with C06."""
+    if ctx is None:
+        ctx = Ctx(M)
+    for name, chk in (("__getitem__", "read"), ("__setitem__", "write"), ("write_direct", "whole")):
+        f = ctx.member("DataArray", name)
+        key = "DataArray." + name
+        if f is None:
+            rep.bad(R4, key, "required mechanism not found")
+            continue
+        bad = None
+        n = 0
+        for p in ctx.paths(f, "DataArray"):
+            evs = [e for e in p.events if e.kind == "layer" and e.op in ("H5DataSet.read_data", "H5DataSet.write_data")]
+            if not evs:
+                continue
+            n += 1
+            e = evs[0]
+            slc = e.kw.get("slc")
+            if chk == "read":
+                if e.op != "H5DataSet.read_data" or slc is None or slc.t != ("param", "index"):
+                    bad = (p, "a[index] reads %s" % (show(slc.t) if slc is not None else "everything"))
+            elif chk == "write":
+                d = e.kw.get("data")
+                if e.op != "H5DataSet.write_data" or slc is None or slc.t != ("param", "index") or d is None or d.t != ("param", "value"):
+                    bad = (p, "a[index] = value writes %s at %s" % (show(d.t) if d is not None else None, show(slc.t) if slc is not None else None))
+            else:
+                d = e.kw.get("data")
+                if e.op != "H5DataSet.write_data" or not (slc is None or (is_const(slc) and slc.t[1] is None)) or d is None or d.t != ("param", "data"):
+                    bad = (p, "write_direct does not write the given data over the whole array")
+        rep.check(R4, key, bad is None and n > 0, bad[1] if bad else "no storage access", site=f.file + ":%d" % f.node.lineno,
+                  detail=describe_path(bad[0]) if bad else None)
+
+
 def run(M, rep, tier, only=None):
     ctx = Ctx(M, coarse=False)
     ctx.cfg.compose = False
@@ -348,34 +383,7 @@ def run(M, rep, tier, only=None):
             rep.ok(R3, "append/axis==appended:%s" % k, "extent %r, region %r for old 7 + 3" % v)
 
     # ---------------------------------------------------------------- R4
-    for name, chk in (("__getitem__", "read"), ("__setitem__", "write"), ("write_direct", "whole")):
-        f = ctx.member("DataArray", name)
-        key = "DataArray." + name
-        if f is None:
-            rep.bad(R4, key, "required mechanism not found")
-            continue
-        bad = None
-        n = 0
-        for p in ctx.paths(f, "DataArray"):
-            evs = [e for e in p.events if e.kind == "layer" and e.op in ("H5DataSet.read_data", "H5DataSet.write_data")]
-            if not evs:
-                continue
-            n += 1
-            e = evs[0]
-            slc = e.kw.get("slc")
-            if chk == "read":
-                if e.op != "H5DataSet.read_data" or slc is None or slc.t != ("param", "index"):
-                    bad = (p, "a[index] reads %s" % (show(slc.t) if slc is not None else "everything"))
-            elif chk == "write":
-                d = e.kw.get("data")
-                if e.op != "H5DataSet.write_data" or slc is None or slc.t != ("param", "index") or d is None or d.t != ("param", "value"):
-                    bad = (p, "a[index] = value writes %s at %s" % (show(d.t) if d is not None else None, show(slc.t) if slc is not None else None))
-            else:
-                d = e.kw.get("data")
-                if e.op != "H5DataSet.write_data" or not (slc is None or (is_const(slc) and slc.t[1] is None)) or d is None or d.t != ("param", "data"):
-                    bad = (p, "write_direct does not write the given data over the whole array")
-        rep.check(R4, key, bad is None and n > 0, bad[1] if bad else "no storage access", site=f.file + ":%d" % f.node.lineno,
-                  detail=describe_path(bad[0]) if bad else None)
+    passthrough_rule(M, rep, R4, ctx)
     f = cctx.member("Block", "create_data_array")
     if f is not None:
         bad = None
